@@ -45,6 +45,16 @@ contract(SOL + "HIref_current_day.py", "HIref_current_day",
              ("C05.hiref_zero_out_of_season", "implies(not growing_season, HIref == 0)"),
              ("C07.yield_form_flag", "implies(growing_season, YieldForm == (NewCond_DAP - NewCond_DelayedCDs > Crop.HIstartCD))"),
          ],
+         # two days of the same season (same crop, same final harvest index): the reference harvest index of the later adjusted day is not smaller
+         options=dict(relational=[dict(vary=["NewCond_DAP", "NewCond_DelayedCDs", "NewCond_CC", "NewCond_CC_prev", "NewCond_CCxW", "NewCond_HIref",
+                                             "NewCond_YieldForm", "NewCond_PctLagPhase"],
+                                       pre="growing_season and NewCond_DAP_1 - NewCond_DelayedCDs_1 <= NewCond_DAP_2 - NewCond_DelayedCDs_2",
+                                       split=["Crop.CropType == 3",
+                                              "NewCond_DAP_1 - NewCond_DelayedCDs_1 - Crop.HIstartCD - 1 <= 0",
+                                              "NewCond_DAP_1 - NewCond_DelayedCDs_1 - Crop.HIstartCD - 1 < Crop.tLinSwitch",
+                                              "NewCond_DAP_2 - NewCond_DelayedCDs_2 - Crop.HIstartCD - 1 < Crop.tLinSwitch"],
+                                       post=[("C05.hiref_nondecreasing_in_adjusted_time", "HIref_1 <= HIref_2"),
+                                             ("C05.yield_formation_once_started_stays", "implies(YieldForm_1, YieldForm_2)")])]),
          props=("C05", "C06", "C16"))
 
 # ----------------------------------------------------------------------------- HIadj_pre_anthesis / pollination / post_anthesis
@@ -209,6 +219,37 @@ contract(SOL + "root_development.py", "root_development",
          note="ASSUMED contract: root_development is not under proof (known finding C05: roots shrink on restrictive layers); only the frame (no heap effect) "
               "and the facts the other callees need about the returned depth are assumed",
          props=("C05",))
+
+# root_development, real body: the walk through restrictive layers (`if Zr > Crop.Zmin:` - index-array sums over the layers) is a TRUSTED block
+contract(SOL + "root_development.py", "root_development#body",
+         params=dict(Crop=OBJ("Crop"), prof=OBJ("SoilProfile"), NewCond_DAP="Int", NewCond_Zroot="Real", NewCond_DelayedCDs="Int", NewCond_GDDcum="Real",
+                     NewCond_DelayedGDDs="Real", NewCond_TrRatio="Real", NewCond_th=ARR("Real", "n"), NewCond_CC="Real", NewCond_CC_NS="Real",
+                     NewCond_Germination="Bool", NewCond_rCor="Real", NewCond_Tpot="Real", NewCond_zGW="Real", gdd="Real", growing_season="Bool",
+                     water_table_presence="Int"),
+         ghost={"n": "Int"},
+         requires=contracts.water.WF() + [
+             "forall(j, 0, n, prof.th_fc[j] - prof.th_wp[j] >= 0.01)",
+             "implies(growing_season, Crop.CalendarType == 1 or Crop.CalendarType == 2)",
+             "Crop.Zmin > 0 and Crop.Zmin <= Crop.Zmax", "Crop.fshape_r > 0", "0 <= Crop.PctZmin and Crop.PctZmin <= 100",
+             "Crop.MaxRooting > Crop.Emergence and Crop.Emergence >= 0",
+             "0 <= Crop.p_up[1] and Crop.p_up[1] < 1", "Crop.fshape_w[1] != 0", "Crop.fshape_ex != 0",
+             "Crop.SxBot > 0", "NewCond_Zroot >= 0",
+             "implies(growing_season, max(NewCond_Zroot, Crop.Zmin) + Crop.Zmax <= prof.dzsum[n-1])",
+         ],
+         returns=[("Zroot", "Real"), ("rCor", "Real")],
+         ensures=[("C05.root_zero_out_of_season", "implies(not growing_season, Zroot == 0)"),
+                  ("C05.root_not_below_water_table", "implies(growing_season and water_table_presence == 1 and NewCond_zGW > 0, Zroot <= max(NewCond_zGW, Crop.Zmin))"),
+                  ("C05.root_no_expansion_before_germination", "implies(growing_season and not NewCond_Germination, Zroot <= ite(NewCond_DAP == 1, Crop.Zmin, max(NewCond_Zroot, Crop.Zmin)))"),
+                  ("C05.root_no_expansion_in_early_senescence", "implies(growing_season and NewCond_CC <= 0 and NewCond_CC_NS > 0.5, Zroot <= ite(NewCond_DAP == 1, Crop.Zmin, max(NewCond_Zroot, Crop.Zmin)))"),
+                  ],
+         assigns=[],
+         options=dict(function="root_development",
+                      # two sites depend on the output of the trusted block (the new depth is positive and inside the profile): bounded C16 check only
+                      tier_b_sites=[("argwhere_witness", "prof.dzsum >= ZiTmp"), ("div_nonzero", "ZrPot / NewCond_Zroot")],
+                      opaque_blocks=[dict(test_prefix="Zr > Crop.Zmin", havoc=["Zr", "dZr"])]),
+         note="the layer walk is a trusted block (its effect on the potential depth Zr and the increment dZr is havocked), so the envelope Zmin <= Zroot <= Zmax and "
+              "'never shrinks' are NOT claimed here (known finding C05: shrink on restrictive layers); the water-table clamp and the no-expansion clauses are proved",
+         props=("C05", "C19"))
 
 # ----------------------------------------------------------------------------- initialisers that are plain scalar loops: calculate_HIGC, calculate_HI_linear
 INIT = "aquacrop/initialize/"
